@@ -2,12 +2,14 @@ package main
 
 import (
 	"bytes"
+	"context"
 	"fmt"
 	"os"
 	"os/exec"
 	"path/filepath"
 	"strings"
 	"syscall"
+	"time"
 
 	"verifharness/internal/cases"
 )
@@ -35,7 +37,9 @@ func (h *H) raceRun() {
 		return
 	}
 	defer os.Remove(bin)
-	run := exec.Command(bin, fmt.Sprint(h.r.U64()%1000000), "16", "400")
+	ctx, cancel := context.WithTimeout(context.Background(), 5*time.Minute)
+	defer cancel()
+	run := exec.CommandContext(ctx, bin, fmt.Sprint(h.r.U64()%1000000), "16", "400")
 	run.Env = append(env, "GORACE=halt_on_error=0 exitcode=66")
 	var buf bytes.Buffer
 	run.Stdout, run.Stderr = &buf, &buf
